@@ -897,6 +897,8 @@ def check(chk):
     thorough = chk.tier == "thorough"
     sd = C.seed()
     t_start = time.time()
+    from . import c15x
+    nx = c15x.run(chk, thorough)
     chk.cov["rule"] = ("case = type term built by TLC (ReflectCases: leaf + <= 2 constructor steps, depth 3 by seeded simulation) "
                        "x {reflect query | fmt verb on a value | reflected method call | DeepEqual pair}; plus every 3-node pointer "
                        "heap x root pair (CycEq) and every (kind, kind, boundary value) conversion / set (ConvSet); "
@@ -1048,7 +1050,7 @@ def check(chk):
         raise C.Undecided("no llgo program ran far enough for the negative control: nothing was compared")
 
     impl_fut.result()
-    chk.cov["evaluations"] = stats["evaluations"]
+    chk.cov["evaluations"] = stats["evaluations"] + nx
     chk.cov["distinct_nontrivial"] = total_agreed
     chk.cov["traces_validated_against_impl"] = stats["evaluations"]
     chk.cov["terms"] = len(bulk)
